@@ -38,7 +38,7 @@ NS = importlib.import_module('pyglove.ext.evolution.nsga2')
 TIERS = {
     'quick': dict(shards=8, cases=18, apps=14, kpoint_extra=3, max_pop=8,
                   algos=0.2, timeout_s=900, case_timeout_s=600),
-    'thorough': dict(shards=16, cases=200, apps=20, kpoint_extra=3, max_pop=12,
+    'thorough': dict(shards=16, cases=160, apps=20, kpoint_extra=3, max_pop=12,
                      algos=0.3, timeout_s=5400, case_timeout_s=900),
 }
 RULE = ('case = one random search space (gen/spaces.random_space with floats, '
@@ -1115,7 +1115,7 @@ def tainted(ctx, leaf):
   name = node_name(leaf)
   for key in ctx.known:
     clause, _, mech = key.partition(':')
-    if clause == 'unexpected-exception':
+    if clause in ('unexpected-exception', 'input-modified'):
       continue                    # aborts the probed run; no bare run follows
     if clause == 'nondeterministic':
       if mech == nondet_mechanism(leaf):
